@@ -6,6 +6,7 @@ import (
 	"os"
 	"path/filepath"
 	"sort"
+	"strings"
 )
 
 type naEntry struct {
@@ -19,8 +20,17 @@ func writeManifest() {
 	checks := []map[string]any{}
 	claimed := map[string]bool{}
 	engines := map[string][]string{}
+	ready := map[string]bool{}
+	if b, err := os.ReadFile(filepath.Join(verif, "ready.txt")); err == nil {
+		for _, f := range strings.Fields(string(b)) {
+			ready[f] = true
+		}
+	}
 	for _, d := range dirs {
 		id := filepath.Base(filepath.Dir(d))
+		if !ready[id] {
+			continue
+		}
 		h := loadHarness(id)
 		claimed[id] = true
 		engines[h.Engine] = append(engines[h.Engine], id)
